@@ -494,11 +494,12 @@ pub fn run(ctx: &Ctx) {
     run_b(ctx);
     run_c(ctx);
     run_d(ctx);
+    run_e(ctx);
     ctx.assume("part B: standard signals coalesce while pending; a delivery is a raise_signal on the shell's virtual process from outside (as the kernel would), between scheduler steps and at preemption points");
     ctx.assume("merge model: disposition = max(internal need, user action) with default < ignore < catch; subshell entry and the ignored-on-entry lock as in POSIX 2.12 and the doc comments of trap.rs");
 }
 
-pub const RULE: &str = "Part C: non-interactive shell started with each subset of {INT, USR1, TERM} ignored; every `trap ACTION COND...` command with ACTION in {command, '', -} and every ordered list of 1-3 of those conditions (+ random pairs of such commands), then the signal is sent to the shell: it must run the trap, be ignored, or kill the shell as the model says, and `trap` must return 0. Part D: run_blocking / run_unblocking / tcsetpgrp_with_block / tcsetpgrp_without_block on a VirtualSystem with the wrapped operation succeeding or failing x 3 initial dispositions x blocked or not: disposition and mask held by the virtual kernel must be what they were. Part B: generated scripts whose main-shell commands are all probes (plus if/for/case/groups/functions/subshells/substitutions/pipelines/and-or), with `trap 'probe T; (probe X); probe T2' USR1`; SIGUSR1 is delivered to the shell process from outside at every scheduler step of the FIFO run (one delivery per run), at random pairs of steps, and randomly (3-60% per step) under random preempting schedules; an event-log checker verifies: one trap run per delivery window (pending deliveries coalesce), no run without delivery, the action starts with the $? of the last command, is not re-entered, leaves $? and the control flow of the script unchanged, and runs before a second main-shell command completes. Part A: breadth-first enumeration (de-duplicated on the model state) of all TrapSet histories over {set_action on CHLD/INT/TSTP/USR1 (default, ignore, command; with and without override), set_action on KILL and STOP, EXIT trap, enable/disable each internal disposition group, enter_subshell with each (ignore_sigint_sigquit, keep_stoppers) pair} x 4 sets of signals ignored on entry, each history re-executed on a fresh Rc<Concurrent<VirtualSystem>>; after every operation the disposition held by the virtual kernel for 10 signals and the listed trap action are compared with the merge model, and the result of set_action with the documented outcome. evaluations = histories executed; distinct_nontrivial = distinct model states reached";
+pub const RULE: &str = "Part C: non-interactive shell started with each subset of {INT, USR1, TERM} ignored; every `trap ACTION COND...` command with ACTION in {command, '', -} and every ordered list of 1-3 of those conditions (+ random pairs of such commands), then the signal is sent to the shell: it must run the trap, be ignored, or kill the shell as the model says, and `trap` must return 0. Part E: start-up in each mode {non-interactive, -i} x {default, -m, +m}: TSTP/TTIN/TTOU ignored iff interactive with job control, TERM/QUIT ignored iff interactive (kernel dispositions at the first command); `trap - SIG` / `trap '' SIG` inside each kind of subshell (incl. asynchronous lists, which start with INT/QUIT blocked): SIG not left blocked. Part D: run_blocking / run_unblocking / tcsetpgrp_with_block / tcsetpgrp_without_block on a VirtualSystem with the wrapped operation succeeding or failing x 3 initial dispositions x blocked or not: disposition and mask held by the virtual kernel must be what they were. Part B: generated scripts whose main-shell commands are all probes (plus if/for/case/groups/functions/subshells/substitutions/pipelines/and-or), with `trap 'probe T; (probe X); probe T2' USR1`; SIGUSR1 is delivered to the shell process from outside at every scheduler step of the FIFO run (one delivery per run), at random pairs of steps, and randomly (3-60% per step) under random preempting schedules; an event-log checker verifies: one trap run per delivery window (pending deliveries coalesce), no run without delivery, the action starts with the $? of the last command, is not re-entered, leaves $? and the control flow of the script unchanged, and runs before a second main-shell command completes. Part A: breadth-first enumeration (de-duplicated on the model state) of all TrapSet histories over {set_action on CHLD/INT/TSTP/USR1 (default, ignore, command; with and without override), set_action on KILL and STOP, EXIT trap, enable/disable each internal disposition group, enter_subshell with each (ignore_sigint_sigquit, keep_stoppers) pair} x 4 sets of signals ignored on entry, each history re-executed on a fresh Rc<Concurrent<VirtualSystem>>; after every operation the disposition held by the virtual kernel for 10 signals and the listed trap action are compared with the merge model, and the result of set_action with the documented outcome. evaluations = histories executed; distinct_nontrivial = distinct model states reached";
 
 // =================================================================== part B
 
@@ -1032,6 +1033,111 @@ pub fn run_d(ctx: &Ctx) {
                         } else {
                             ctx.nontrivial(crate::util::fnv_str(&format!("D{helper}{sname}{disp:?}{blocked}{fail}")));
                         }
+                    }
+                }
+            }
+        }
+    }
+}
+
+// =================================================================== part E
+//
+// (1) Start-up: which signals the shell ignores for its own purposes depends on its mode
+// (docs/src/environment/traps.md, interactive.md): the job-control stop signals TSTP TTIN TTOU are
+// ignored only by an interactive shell with job control; TERM and QUIT only by an interactive shell.
+// The kernel's dispositions are read at the first command. (2) A signal whose disposition a
+// subshell sets back to default or to ignore must not stay blocked there (an asynchronous list
+// starts with INT and QUIT blocked while it is being set up).
+
+pub fn run_e(ctx: &Ctx) {
+    // (1) start-up modes
+    for interactive in [false, true] {
+        for monitor_flag in [None, Some("-m"), Some("+m")] {
+            let mut args = vec!["yash".to_string()];
+            if interactive {
+                args.push("-i".into());
+            }
+            if let Some(m) = monitor_flag {
+                args.push(m.into());
+            }
+            let script = "snap start\n";
+            let mut cfg = if interactive {
+                let mut c = vsh::VCfg::with_args(args.clone());
+                c.stdin_chunks = Some(vec![script.as_bytes().to_vec()]);
+                c
+            } else {
+                args.push("-c".into());
+                args.push(script.into());
+                vsh::VCfg::with_args(args.clone())
+            };
+            cfg.extra = vsh::v_probes();
+            cfg.files = vec![("/dev/tty".into(), vsh::FileSpec::Regular(Vec::new()))];
+            let out = vsh::run_v(cfg);
+            ctx.eval();
+            ctx.count("E_startup_modes", 1);
+            let Some(e) = out.events.iter().find(|e| e.kind == "snap") else {
+                ctx.violation("E:no-snapshot", format!("arguments {args:?}: the shell did not run its first command\nstderr:\n{}", out.err()));
+                continue;
+            };
+            let disp = e.args.iter().find_map(|a| a.strip_prefix("dispositions=")).unwrap_or("").to_string();
+            let is = |n: Number, d: &str| disp.split(',').any(|x| x == format!("{}:{d}", n.as_raw()));
+            let ignored = |n: Number| is(n, "Ignore");
+            // interactive shells default to job control on unless +m
+            let monitor = match monitor_flag {
+                Some("-m") => true,
+                Some("+m") => false,
+                _ => interactive,
+            };
+            let want_stoppers_ignored = interactive && monitor;
+            for (name, n) in [("TSTP", SIGTSTP), ("TTIN", SIGTTIN), ("TTOU", SIGTTOU)] {
+                if ignored(n) != want_stoppers_ignored {
+                    ctx.violation(
+                        format!("E:startup-disposition:{name}"),
+                        format!("arguments {args:?} (interactive {interactive}, job control {monitor}): SIG{name} ignored = {}, expected {want_stoppers_ignored}\nkernel dispositions: {disp}", ignored(n)),
+                    );
+                }
+            }
+            for (name, n) in [("TERM", SIGTERM), ("QUIT", SIGQUIT)] {
+                if ignored(n) != interactive {
+                    ctx.violation(
+                        format!("E:startup-disposition:{name}"),
+                        format!("arguments {args:?}: SIG{name} ignored = {}, expected {interactive}\nkernel dispositions: {disp}", ignored(n)),
+                    );
+                }
+            }
+            ctx.nontrivial(crate::util::fnv_str(&format!("E{args:?}")));
+        }
+    }
+    // (2) default/ignore set inside each kind of subshell: not left blocked
+    let kinds = ["{ BODY; } & wait", "( BODY )", ": $( BODY )", "true | { BODY; }", "{ BODY; } | true"];
+    for kind in kinds {
+        for act in ["-", "''"] {
+            for (name, n) in [("INT", SIGINT), ("QUIT", SIGQUIT), ("USR1", SIGUSR1)] {
+                for parent_trap in [false, true] {
+                    let body = format!("trap {act} {name}; snap inner");
+                    let mut script = String::new();
+                    if parent_trap {
+                        script.push_str(&format!("trap 'probe t' {name}\n"));
+                    }
+                    script.push_str(&kind.replace("BODY", &body));
+                    script.push('\n');
+                    let mut cfg = vsh::VCfg::script(&script);
+                    cfg.extra = vsh::v_probes();
+                    let out = vsh::run_v(cfg);
+                    ctx.eval();
+                    ctx.count("E_subshell_mask_scenarios", 1);
+                    let Some(e) = out.events.iter().find(|e| e.kind == "snap") else {
+                        ctx.violation("E:no-snapshot", format!("script:\n{script}stderr:\n{}", out.err()));
+                        continue;
+                    };
+                    let mask = e.args.iter().find_map(|a| a.strip_prefix("sigmask=")).unwrap_or("");
+                    if mask.contains(&format!("{n:?}")) {
+                        ctx.violation(
+                            format!("E:left-blocked:{name}"),
+                            format!("after `trap {act} {name}` in a subshell, SIG{name} is still blocked there (mask {mask}): a delivery would stay pending for ever\nscript:\n{script}"),
+                        );
+                    } else {
+                        ctx.nontrivial(crate::util::fnv_str(&script));
                     }
                 }
             }
